@@ -26,6 +26,10 @@ CHECKS = {
          "Slab.tla constructs the slab / fault surface of a straight trench in the perpendicular plane with Pythagorean dips, so that for every lattice point TLC decides exactly which segment carries the foot, the signed distance from and the distance along the surface, and membership (thickness and top truncation varying linearly along each segment); every world x point is replayed against World::distance_to_plane (1e-6 relative + 1 m) and against membership (composition and tag), leaving out only points where an inequality is tight or the nearest segment is ambiguous.",
          "1 segment (quick) / 1-2 segments (thorough), 5 dips incl. vertical and overturned, 3 trench directions, both dip sides, min depth 0 / 100 km, slabs and faults; Cartesian straight segments only; " + NOTE,
          "TLA+/TLC exact planar construction (Slab.tla) + replay of distances and membership"),
+ "C07": ("model_checking",
+         "For straight trenches TLC checks on the exact planar construction that no member is discarded by the transcribed pre-filter (depth cut-off measured from the min depth, bounding box extended by length + thickness) -- the pre-fix cut-off is kept as a switch and yields the counterexample; for all families (straight, curved, spherical up to 80 degrees latitude, dateline-crossing, variable depth surfaces) every query is answered twice in one process, with the shortcuts as built and neutralised through the GWB_VERIF hook, and must agree bitwise.",
+         "differential replay needs the hook (bounds inflated at parse time); grids of 5-6 thousand points per world; quick runs a third of the straight and half of the curved worlds; " + NOTE,
+         "TLA+/TLC Mech|=Prop for the culling arithmetic (Slab.tla) + differential replay with the hook (Culling.tla)"),
  "C09": ("model_checking",
          "TLC maps every 2D probe exactly onto the section (rational arithmetic on Pythagorean directions), checks that the probes stay away from straight feature boundaries, and every section x position x depth x property list is replayed: the 2D reply must equal the 3D reply at the mapped point block by block, velocities as the specified projection, and a world without cross section must refuse.",
          "36 sections (origins x 6 directions x Cartesian/spherical), 45 property lists; tolerance 1e-9 because the code's own mapping rounds; " + NOTE,
